@@ -303,4 +303,11 @@ def gen_tag_module(rng, name, td):
     s3 = add(name + "S3", {"k": "SEQUENCE", "comps": [], "ext": 0})
     add(name + "S4", {"k": "SEQUENCE", "comps": [{"id": f"m{name.lower()}s4x0", "type": {"k": "REF", "name": s3, "tag": ("ctx", 0, "")}, "opt": "OPTIONAL"},
                                                  {"id": f"m{name.lower()}s4x1", "type": {"k": "SEQUENCE", "comps": [], "ext": 0, "tag": ("ctx", 1, "")}}]})
+    # a tag written on the element type (the fixer resolves its mode like a component's: former finding F122), also on
+    # elements that get a descriptor of their own (ENUMERATED, unsigned-long INTEGER: tag_mode 0, former finding F49)
+    add(name + "L2", {"k": "SEQUENCE OF", "elem": tagged(prim()), "size": None})
+    add(name + "L3", {"k": "SET OF", "elem": tagged({"k": "REF", "name": r.choice(refs)}), "size": r.choice([None, genmod.cons(0, 3)])})
+    add(name + "L4", {"k": "SEQUENCE OF", "elem": tagged(r.choice([prim("ENUMERATED"), {"k": "INTEGER", "cons": genmod.cons(0, None)},
+                                                                    members(2, plain, "CHOICE"), members(2, plain, "SEQUENCE")])), "size": None})
+    add(name + "L5", tagged({"k": "SET OF", "elem": tagged({"k": "SEQUENCE OF", "elem": tagged(prim("BOOLEAN")), "size": None}), "size": None}))
     return {"name": name, "tagdefault": td, "types": types}
